@@ -272,6 +272,8 @@ def mrg_mvreg(ctx):
 
 
 @rule('MV-EVICT', {
+    'C03': 'a Put whose write the state already holds (learned inside a merged state) must leave the reads as they are, and a Put '
+           'delivered as an op must evict exactly what the merge of the writer\'s state would evict',
     'C06': 'keeping Eq duplicates a re-delivered write; keeping Lt shows a superseded write',
     'C08': 'a dominating Put must evict what it observed whatever the arrival order',
     'C09': 're-delivering a Put must not duplicate it',
@@ -373,6 +375,7 @@ def mv_evict(ctx):
     'C06': 'a Put with a real (non-empty) clock must reach the eviction and the store decision on every path: an early return on some '
            'other condition silently drops writes',
     'C08': 'same: a dominating Put that returns early never evicts what it observed',
+    'C03': 'a write dropped by op delivery is kept by the merge of the writer\'s state: the two routes disagree',
     'C20': 'a Put with an empty clock carries no dot: stored, it is a value no later write is known to supersede (residue)',
 }, floor=2)
 def mv_live(ctx):
@@ -421,6 +424,7 @@ def mv_live(ctx):
 
 
 @rule('MV-IGNORE', {
+    'C03': 'a Put is stored by op delivery exactly when the merge of the writer\'s state would keep it',
     'C06': 'a Put is shown iff no applied write has superseded it',
     'C08': 'a dominated Put arriving late must be ignored',
     'C09': 'a stale Put must not re-appear',
